@@ -280,6 +280,87 @@ def panicAllowed (op : Op) (w : World) (br : BR) : Bool :=
    | none => false) ||
   (op = .upgrade && (entryOf br).isNone)
 
+/-! ### histories (used by the theorems over whole releases) -/
+
+/-- one event in the life of a release: a call of the control plane (any of the three, with any BatchRelease
+    fields — UID, plan, current batch, partition — and any API fault), or the workload's own controller / the
+    user's scaling changing the status resp. the replica count -/
+inductive Ev where
+  | call (op : Op) (br : BR) (f : Fault)
+  | status (st : Status)
+  | scale (r : Int)
+  deriving Repr
+
+
+/-- the world after an event; `none` = the controller process panicked -/
+def applyEv (kind : Kind) (w : World) : Ev → Option World
+  | .call op br f =>
+    match call kind op w br f with
+    | .val o => some o.world
+    | .panic => none
+  | .status st => some { w with wl := w.wl.map (fun wl => { wl with status := st }) }
+  | .scale r => some { w with wl := w.wl.map (fun wl => { wl with replicas := some r }) }
+
+
+def run (kind : Kind) (w : World) : List Ev → Option World
+  | [] => some w
+  | e :: t =>
+    match applyEv kind w e with
+    | some w' => run kind w' t
+    | none => none
+
+
+/-- no `Initialize` of the history falls into the known finding `savedMinReadyZero` -/
+def guardFree (kind : Kind) (w : World) : List Ev → Bool
+  | [] => true
+  | e :: t =>
+    (match e, w.wl with
+     | .call .init br _, some wl => !gSavedZero br wl
+     | _, _ => true) &&
+    (match applyEv kind w e with
+     | some w' => guardFree kind w' t
+     | none => true)
+
+
+/-- the ghost of a release that starts on workload `wl` -/
+def origOf (kind : Kind) (wl : Workload) : Orig := { setting := effSetting kind wl, stype := wl.stype }
+
+
+/-- invariant: the exposure is within the bound `B`, the blue-green hold is complete whenever `minReadySeconds` is
+    the blue-green value, and a CloneSet is not of a foreign update type -/
+def expInv (kind : Kind) (B : Int) (w : World) : Bool :=
+  match w.wl with
+  | none => true
+  | some wl =>
+    decide (exposureBG kind wl ≤ B) &&
+    (!decide (wl.minReadySeconds = maxReady) || decide (ruUnavailable wl.ru = some (int 0))) &&
+    (kind != .cloneSet || decide (wl.stype ≠ .other))
+
+
+/-- the events of the progressing phase: `Initialize`, `UpgradeBatch` for a batch that plans at most `B` pods of the
+    current replica count, and status changes -/
+def progressEv (B : Int) (w : World) : Ev → Bool
+  | .call .init _ _ => true
+  | .call .upgrade br _ =>
+    (match w.wl with
+     | some wl => (match wl.replicas with
+        | some R => decide (plannedOfBR br R ≤ B)
+        | none => true)
+     | none => true)
+  | .call .fin _ _ => false
+  | .status _ => true
+  | .scale _ => false
+
+
+def progressRun (kind : Kind) (B : Int) (w : World) : List Ev → Bool
+  | [] => true
+  | e :: t =>
+    progressEv B w e &&
+    (match applyEv kind w e with
+     | some w' => progressRun kind B w' t
+     | none => true)
+
+
 /-! ### what the driver evaluates -/
 
 def guardTags (kind : Kind) (op : Op) (w : World) (br : BR) (f : Fault) (o : Option Orig) : List String :=
